@@ -325,6 +325,84 @@ def _worker(i):
     return run_case(i)
 
 
+def run_multiproc(k):
+    """Several processes (as MPI ranks on one or more nodes do) write into the
+    same trace directory at the same time: same pid on different looms, or
+    different pids on one loom, the same thread ids in each.  Every stream of
+    every process must hold exactly what its thread emitted."""
+    import concurrent.futures as cf
+    chk, drv = _CTX["chk"], _CTX["drv"]
+    rng = chk.rng(k, "multiproc")
+    nproc = rng.randint(2, 3)
+    layout = rng.choice(["same-pid-other-loom", "other-pid-same-loom", "mixed"])
+    procs = []
+    for p in range(nproc):
+        loom = "node%d" % (p if layout != "other-pid-same-loom" else 0)
+        pid = 100 + (p if layout != "same-pid-other-loom" else 0)
+        if layout == "mixed" and p == nproc - 1:
+            loom, pid = "node0", 100 + p
+        nth = rng.randint(1, 3)
+        secs = []
+        for t in range(nth):
+            ops, sh = gen_soup(rng, rng.choice([50, 400]), big=1)
+            secs.append((3000 + t, ops))
+        procs.append({"loom": loom, "pid": pid, "script": make_script(secs, loom=loom, pid=pid), "tids": [3000 + t for t in range(nth)]})
+    wd = os.path.join(chk.scratch, "mp-%d-%d" % (os.getpid(), k))
+    shutil.rmtree(wd, ignore_errors=True)
+    os.makedirs(wd)
+    out = {"i": k, "kind": "multi-process", "viol": None, "inconclusive": None, "events": 0, "markers": 0, "bytes": 0,
+           "feat": set(), "shortwrites": 0, "aborted_on_fault": 0, "layout": layout}
+    env = {"OVNI_TRACEDIR": os.path.join(wd, "trace")}
+    if rng.random() < 0.5:
+        env["OVNI_TMPDIR"] = os.path.join(wd, "tmp")
+    try:
+        def one(p):
+            pw = os.path.join(wd, "p%d" % p)
+            os.makedirs(pw)
+            return rt.run_script(drv, procs[p]["script"], pw, env=env, timeout=120)
+        with cf.ThreadPoolExecutor(max_workers=nproc) as ex:
+            results = list(ex.map(one, range(nproc)))
+        for p, res in enumerate(results):
+            if res.timeout:
+                out["inconclusive"] = "driver timed out"; return out
+            if res.rc in (97, 98):
+                raise core.HarnessError("rtdrv harness error: " + res.err[-500:])
+            if res.sanitizer:
+                out["viol"] = ("sanitizer:%s:%s" % (core.sanitizer_kind(res.err), core.first_repo_frame(res.err)),
+                               "sanitizer report while emitting", res.brief()); return out
+            if res.rc != 0 or "RTDRV-DONE" not in res.out:
+                out["viol"] = ("driver-died:multi-process:%s" % layout, "library terminated one of %d processes writing into "
+                               "the same trace directory (%s)" % (nproc, layout), res.brief()); return out
+        for p, pr in enumerate(procs):
+            ldir = os.path.join(wd, "p%d" % p, "log")
+            for lg in os.listdir(ldir):
+                recs = rt.parse_log(os.path.join(ldir, lg))
+                tid = [r.tid for r in recs if r.kind == "init"][0]
+                sd = obs.stream_dir(env["OVNI_TRACEDIR"], pr["loom"], pr["pid"], tid)
+                try:
+                    with open(os.path.join(sd, "stream.obs"), "rb") as f:
+                        data = f.read()
+                except OSError:
+                    out["viol"] = ("stream-missing:multi-process", "no stream.obs for loom %s pid %d thread %d"
+                                   % (pr["loom"], pr["pid"], tid), {"layout": layout}); return out
+                out["bytes"] += len(data)
+                try:
+                    evs = obs.decode(data)
+                except obs.DecodeError as ex:
+                    out["viol"] = ("not-tiled:" + ex.msg.split("(")[0].strip(), "multi-process (%s): stream of loom %s pid %d "
+                                   "thread %d: %s" % (layout, pr["loom"], pr["pid"], tid, ex), {}); return out
+                msg = rt.compare_stream(evs, recs)
+                if msg:
+                    out["viol"] = ("stream-differs:multi-process", "multi-process (%s): loom %s pid %d thread %d: %s"
+                                   % (layout, pr["loom"], pr["pid"], tid, msg), {}); return out
+                nm = sum(1 for e in evs if rt.is_flush_marker(e))
+                out["markers"] += nm
+                out["events"] += len(evs) - nm
+        return out
+    finally:
+        shutil.rmtree(wd, ignore_errors=True)
+
+
 def main(argv):
     chk = core.Check("C01", "exploration", argv)
     b = chk.build("asan", ["ovni"])
@@ -333,7 +411,7 @@ def main(argv):
     if chk.replay:
         import json
         rp = json.load(open(chk.replay))
-        cases = [rp["replay"]["case"]]
+        cases = [rp["replay"]["case"]] if "case" in rp["replay"] else []
         chk.seed = rp.get("seed", chk.seed)
     else:
         n = 60 if chk.tier == "quick" else 1500
@@ -358,6 +436,18 @@ def main(argv):
             info = gen_case(chk, out["i"])
             chk.report(key, what, {"case": out["i"], "kind": info["kind"], "script_head": info["script"][:2000],
                                    "observation": obsv})
+    if not chk.replay or "multiproc" in rp["replay"]:
+        mp = [rp["replay"]["multiproc"]] if chk.replay else list(range(6 if chk.tier == "quick" else 150))
+        for out in core.pmap(run_multiproc, mp, jobs=max(2, core.NCPU // 3)):
+            if out["inconclusive"]:
+                chk.note_inconclusive(out["inconclusive"]); continue
+            evaluated += 1
+            kinds[out["kind"]] = kinds.get(out["kind"], 0) + 1
+            for k in tot:
+                tot[k] += out[k]
+            if out["viol"]:
+                key, what, obsv = out["viol"]
+                chk.report(key, what, {"multiproc": out["i"], "layout": out["layout"], "observation": obsv})
     for i in cases[:200]:
         info = gen_case(chk, i)
         if info["kind"] == "boundary":
@@ -367,7 +457,9 @@ def main(argv):
     cov = {
         "evaluations": evaluated,
         "distinct_nontrivial": len(feats) + len(deltas_seen),
-        "rule": "op scripts (boundary sweep / op soup / dense autoflush / multi-thread / short-write) run on the "
+        "rule": "op scripts (boundary sweep / op soup / dense autoflush / multi-thread / short-write / EINTR / no stdin; 2-3 "
+                "processes writing into one trace directory at once with equal pids on different looms or equal tids in "
+                "different processes) run on the "
                 "ASan+UBSan libovni; a case counts when the driver finished and every stream was decoded and compared "
                 "with the emit log. distinct_nontrivial = distinct (normal|jumbo, payload size) classes seen in decoded "
                 "streams + flush-marker class + distinct boundary distances delta (MAX - fill level) generated",
